@@ -190,7 +190,7 @@ def run(rep: Report, prog: Program, tier: str) -> None:
         rep.samples.append(s)
 
     # ---- C10-FEED
-    rep.rule("C10-FEED", "receiver uses add()'s results faithfully and feeds it depayloaded packets only (original codec for retransmissions)", min_instances=7)
+    rep.rule("C10-FEED", "receiver uses add()'s results faithfully and feeds it depayloaded packets only (original codec for retransmissions); the key-frame request goes out for every RTCP SSRC", min_instances=12)
     h = prog.func("rtcrtpreceiver.RTCRtpReceiver._handle_rtp_packet")
     assign = None
     for n in walk_no_nested(h.node):
@@ -255,6 +255,8 @@ def run(rep: Report, prog: Program, tier: str) -> None:
                   ("a packet whose codec payload does not parse", _fp(96, 1000, 501, b"BAD"), []),
                   ("a retransmission on the RTX stream (original sequence number 502)", _fp(97, 2000, 7001, b"\x01\xf6c"), [(502, b"VP8:c")]),
                   ("a retransmission whose inner payload does not parse", _fp(97, 2000, 7002, b"\x01\xf7BAD"), []),
+                  ("a retransmission with a 1-byte payload (too short for the original sequence number)", _fp(97, 2000, 7003, b"\x01"), []),
+                  ("a retransmission with an empty payload", _fp(97, 2000, 7004, b""), []),
                   ("an empty media packet (padding probe)", _fp(96, 1000, 504, b""), None)]
     for what, pkt_, want_ in feed_cases:
         del fed[:]
@@ -275,6 +277,33 @@ def run(rep: Report, prog: Program, tier: str) -> None:
         else:
             rep.fail(mk_finding(prog, PROP, "C10-FEED", h, assign, f"on {what} the jitter buffer is fed {got_}; expected {want_}: the buffer concatenates `_data` of the packets of a frame, so a packet "
                                 "that was not depayloaded (or was depayloaded with the wrong codec) corrupts the frame or makes add() raise", construct="feed: " + what[:50]))
+
+    # the key-frame request itself: sent for every local RTCP SSRC that is set - 0 is a legal SSRC (random32() can return it)
+    pli_f = prog.func("rtcrtpreceiver.RTCRtpReceiver._send_rtcp_pli")
+    for ssrc_, want_sent in ((1234, True), (0, True), (None, False)):
+        sent_: list = []
+
+        def _px(call, evl, sent_=sent_):
+            nm = unparse(call.func)
+            if nm == "self._send_rtcp":
+                sent_.append(evl.ev(call.args[0]))
+                return None
+            if nm.endswith("__log_debug"):
+                return None
+            return NotImplemented
+        ph_ = _mkf(prog, _px)
+        me_p = _NSf(__cls__=pli_f.cls)
+        setattr(me_p, "__rtcp_ssrc", ssrc_)
+        try:
+            ph_.run_method(pli_f, me_p, [4321], {})
+        except (_Rf, _Uf) as ex_:
+            raise AnalysisError(f"C10-FEED cannot evaluate _send_rtcp_pli: {ex_}")
+        ok_ = (len(sent_) == 1 and getattr(sent_[0], "media_ssrc", None) == 4321 and getattr(sent_[0], "ssrc", None) == ssrc_) if want_sent else not sent_
+        if ok_:
+            rep.ok("C10-FEED", f"_send_rtcp_pli with local RTCP SSRC {ssrc_}", sample="one PLI for the media SSRC" if want_sent else "nothing sent")
+        else:
+            rep.fail(mk_finding(prog, PROP, "C10-FEED", pli_f, pli_f.node, f"with local RTCP SSRC {ssrc_} the key-frame request sends {len(sent_)} packet(s); expected {'one PLI' if want_sent else 'none'}: "
+                                "the buffer threw packets away and the sender is never asked for a key frame", construct=f"PLI with RTCP SSRC {ssrc_}"))
 
     accept_rule(rep, prog, PROP, "C10-ACCEPT")
 
